@@ -644,8 +644,21 @@ pub fn run_c14() {
         rep.set("cap", ast.cap.clone().unwrap_or_default());
     }
     problems.extend(avio);
+    // ... and real handlers whose application answers (held requests, a 40-packet answer)
+    let (hst, hvio) = crate::hdrive::c14_part(thorough);
+    rep.set("handler_level_response_states", hst.states);
+    for k in ["responses_put_on_the_wire", "response_bursts_above_30_datagrams"] {
+        rep.set(&format!("handler_level_{k}"), hst.counters.get(k).copied().unwrap_or(0));
+    }
+    if !hst.exhaustive {
+        rep.set("exhaustive", false);
+    }
+    problems.extend(hvio);
     for p in problems {
         rep.violation(p);
+    }
+    if hst.counters.get("response_bursts_above_30_datagrams").copied().unwrap_or(0) == 0 {
+        rep.vacuous("C14 vacuous: no response burst above 30 datagrams in the handler-level worlds");
     }
     if ast.counters.get("requests_in_genuine_handshakes_delivered").copied().unwrap_or(0) == 0 {
         rep.vacuous("C14 vacuous: no genuine handshake with an enclosed request in the handler-level worlds");
